@@ -182,14 +182,21 @@ def run(ctx):
             ok_cfgs = [" ".join(jobs[x][1][3:]) for x in by_scen[i] if not S.compare_acts(sc, fin[i], results[x])]
             _, c, nn = owner[j]
             others_ok = all(not S.compare_acts(sc, fin[i], results[x]) for x in by_scen[i] if owner[x][1][0] != "TI")
-            if c[0] == "TI" and others_ok and ti_event_in_flight(sc, fin[i]):
-                ctx.violation("cpu/optim:TI disagrees with the prediction and with Lazy/Full on a workload with suspend / resume / "
-                              "priority changes of running executions: " + bad2[0],
+            comps = []
+            if ti_event_in_flight(sc, fin[i]):
+                comps.append("suspend-resume-priority")
+            if any(h["sprof"] and h["sprof"]["pts"][0][0] > 0 for h in sc["hosts"]):
+                comps.append("speed-profile-first-point-after-0")
+            if c[0] == "TI" and others_ok and comps:
+                ctx.violation("cpu/optim:TI disagrees with the prediction and with Lazy/Full on a workload with " +
+                              " and ".join({"suspend-resume-priority": "suspend / resume / priority changes of running executions",
+                                            "speed-profile-first-point-after-0": "a periodic speed profile whose first point is after date 0"}[x]
+                                           for x in comps) + ": " + bad2[0],
                               files={"scenario.json": json.dumps(S.scen_json(sc)), "scenario.txt": jobs[j][0],
                                      "howto.txt": ".build/harness/surf_driver scenario.txt %s\n" % " ".join(jobs[j][1]),
                                      "output.ndjson": "\n".join(json.dumps(x) for x in recs2) + "\n",
                                      "reference.json": json.dumps({"fin": fin[i]})},
-                              signature="C19:TI:suspend-resume-priority", detail=json.dumps(brief(sc)) + "\n" + "\n".join(bad2[:20]))
+                              signature="C19:TI:" + "+".join(comps), detail=json.dumps(brief(sc)) + "\n" + "\n".join(bad2[:20]))
                 ctx.cov["known_finding_workloads"] = ctx.cov.get("known_finding_workloads", 0) + 1
                 reported = True
                 break
